@@ -51,6 +51,11 @@ def run(ctx):
                                           'rerun': 'pvh rollbacks <file: x %s>' % f[0]}))
     # huge ids: implementation + oracle only (the model's seen table would have 2^31 entries)
     big = [[2147483647], [2147483647, 5, 2147483647], [2147483524, 2147483525, 2147483524], [-123, 2147483647, -123]]
+    # distinct ids that coincide modulo a power of two (a narrowed index type would alias them), and equal ids far from the start
+    for k in (8, 15, 16, 17, 24, 31):
+        d = 1 << k
+        big += [[0, d], [-123, -123 + d], [5, 5 + d, 5], [d, 0, d - 1, d + 1], [-123 + d, -123, -123 + d]] if d + 5 < 2 ** 31 else [[0, d - 1], [-123, d - 124]]
+    big += [[rng.randrange(-123, 2 ** 20) for _ in range(rng.randrange(2, 12))] for _ in range(60)]
     bc = [('b%d' % i, [','.join(map(str, s))]) for i, s in enumerate(big)]
     res = R.run_pvh('rollbacks', bc, timeout_ms=60000)
     for (cid, f), s in zip(bc, big):
